@@ -1,0 +1,35 @@
+#ifndef KALIGN_VERIF_H
+#define KALIGN_VERIF_H
+
+/* Verification hooks. Compiled only with -DKALIGN_VERIF; without the define
+   every macro below expands to nothing and no symbol is added. */
+
+#ifdef KALIGN_VERIF
+
+#define KV_MERGE_BEGIN 1   /* a = msa, b = aln_tasks, i,j,k = node ids a,b,c        */
+#define KV_MERGE_END 2     /* same payload, after sip[c]/nsip[c] are filled         */
+#define KV_DP_FWD_BEGIN 3  /* a = aln_mem, i = kernel (0 seqseq,1 seqprof,2 profprof) */
+#define KV_DP_FWD_END 4
+#define KV_DP_BWD_BEGIN 5
+#define KV_DP_BWD_END 6
+#define KV_DP_MEETUP 7
+#define KV_PARAMS 8        /* a = aln_param, i = biotype, j = type                  */
+
+typedef void (*kalign_verif_cb)(int ev, const void *a, const void *b, int i, int j, int k);
+
+#ifdef __cplusplus
+extern "C" {
+#endif
+extern kalign_verif_cb kalign_verif_hook;
+#ifdef __cplusplus
+}
+#endif
+
+#define KALIGN_VERIF_EVENT(ev,a,b,i,j,k) ((void)(kalign_verif_hook ? (kalign_verif_hook((ev),(a),(b),(i),(j),(k)),0) : 0))
+
+#else
+
+#define KALIGN_VERIF_EVENT(ev,a,b,i,j,k) ((void)0)
+
+#endif
+#endif
